@@ -258,7 +258,7 @@ fn parse(
     Vec<(Rotation, Translation, TimeReversal)>,
     OriginShift,
 )> {
-    let (inversion_at_origin, lattice_symbol) = parse_lattice(tokens[0])?;
+    let (inversion_at_origin, lattice_symbol) = parse_lattice(tokens.first()?)?;
 
     let mut ns = vec![];
     let mut rotation_count = 0;
@@ -288,14 +288,14 @@ fn parse(
 
 fn parse_lattice(token: &str) -> Option<(bool, Centering)> {
     let mut pos = 0;
-    let inversion_at_origin = match token.chars().nth(pos).unwrap() {
+    let inversion_at_origin = match token.chars().nth(pos)? {
         '-' => {
             pos += 1;
             true
         }
         _ => false,
     };
-    let lattice_symbol = match token.chars().nth(pos).unwrap() {
+    let lattice_symbol = match token.chars().nth(pos)? {
         'P' => Centering::P,
         'A' => Centering::A,
         'B' => Centering::B,
@@ -315,7 +315,7 @@ fn parse_origin_shift(tokens: Vec<&str>) -> Option<Vector3<f64>> {
         .map(|s| {
             if let Some(stripped) = s.strip_prefix('(') {
                 stripped
-            } else if s.chars().nth(s.len() - 1).unwrap() == ')' {
+            } else if s.ends_with(')') {
                 &s[..s.len() - 1]
             } else {
                 s
@@ -327,9 +327,9 @@ fn parse_origin_shift(tokens: Vec<&str>) -> Option<Vector3<f64>> {
         return None;
     }
     let origin_shift = Vector3::<f64>::new(
-        tokens[0].parse::<f64>().unwrap() / MAX_DENOMINATOR as f64,
-        tokens[1].parse::<f64>().unwrap() / MAX_DENOMINATOR as f64,
-        tokens[2].parse::<f64>().unwrap() / MAX_DENOMINATOR as f64,
+        tokens[0].parse::<f64>().ok()? / MAX_DENOMINATOR as f64,
+        tokens[1].parse::<f64>().ok()? / MAX_DENOMINATOR as f64,
+        tokens[2].parse::<f64>().ok()? / MAX_DENOMINATOR as f64,
     );
     Some(origin_shift)
 }
@@ -342,7 +342,7 @@ fn parse_operation(
 ) -> Option<(Rotation, Translation, TimeReversal, String, String)> {
     let mut pos = 0;
 
-    let improper = match token.chars().nth(pos).unwrap() {
+    let improper = match token.chars().nth(pos)? {
         '-' => {
             pos += 1;
             true
@@ -350,22 +350,22 @@ fn parse_operation(
         _ => false,
     };
 
-    let nfold = token.chars().nth(pos).unwrap().to_string();
+    let nfold = token.chars().nth(pos)?.to_string();
     pos += 1;
 
     let mut axis = String::new();
     if pos < token.len() {
-        if token.chars().nth(pos).unwrap() == '^' {
+        if token.chars().nth(pos)? == '^' {
             axis += "p";
             pos += 1;
-        } else if token.chars().nth(pos).unwrap() == '=' {
+        } else if token.chars().nth(pos)? == '=' {
             axis += "pp";
             pos += 1;
         }
     }
 
     if pos < token.len() {
-        let c = token.chars().nth(pos).unwrap();
+        let c = token.chars().nth(pos)?;
         if (c == 'x') || (c == 'y') || (c == 'z') || (c == '*') {
             axis.push(c);
             pos += 1;
@@ -424,7 +424,7 @@ fn parse_operation(
     let mut time_reversal = false;
 
     while pos < token.len() {
-        let c = token.chars().nth(pos).unwrap();
+        let c = token.chars().nth(pos)?;
         // translations are applied additively
         if "123456".contains(c) {
             // always along z-axis!
@@ -443,7 +443,10 @@ fn parse_operation(
         pos += 1;
     }
 
-    assert_eq!(pos, token.len());
+    if pos != token.len() {
+        // Unexpected trailing characters
+        return None;
+    }
     Some((
         rotation,
         translation,
